@@ -52,6 +52,11 @@ type childResult struct {
 
 // childInit is called first thing by every child: the small stack limit applies to stage 1 only.
 func childInit() {
+	// self-test hook: a stage-2 child that ends silently (as if killed from outside) must make the harness stop with exit
+	// status 2 (verif.Infra), never a verdict
+	if os.Getenv(smallStackEnv) == "0" && os.Getenv("VERIF_TEST_DIE_SILENTLY") == "1" {
+		os.Exit(137)
+	}
 	if os.Getenv(smallStackEnv) == "1" {
 		debug.SetMaxStack(32 << 20)
 		// self-test hook: VERIF_TEST_SLOW_STAGE1=<ms> makes every stage-1 child that slow (a loaded machine); the check must
